@@ -108,6 +108,7 @@ pub fn dump_traits(tcx: TyCtxt<'_>, w: &mut W) {
         w.kstr("path", &path_of(tcx, did));
         w.kstr("name", tcx.item_name(did).as_str());
         w.kbool("reachable", tcx.effective_visibilities(()).is_reachable(did.expect_local()));
+        w.kbool("exported", tcx.effective_visibilities(()).is_exported(did.expect_local()));
         w.kbool("unsafe", tcx.trait_def(did).safety.is_unsafe());
         w.key("loc");
         loc(tcx, tcx.def_span(did), w);
@@ -289,6 +290,7 @@ pub fn dump_fns(tcx: TyCtxt<'_>, w: &mut W) {
         w.kstr("name", tcx.item_name(did).as_str());
         w.kbool("unsafe", sig.safety().is_unsafe());
         w.kbool("reachable", tcx.effective_visibilities(()).is_reachable(did.expect_local()));
+        w.kbool("exported", tcx.effective_visibilities(()).is_exported(did.expect_local()));
         w.kbool("pub", tcx.visibility(did).is_public());
         w.kbool("has_body", tcx.is_mir_available(did));
         w.key("loc");
